@@ -89,6 +89,7 @@ type schedState struct {
 	gs          []*goroutine
 	wg          sync.WaitGroup
 	mutexes     map[*value]*mutexState
+	syncMaps    map[*value]*mapV // sync.Map contents, by receiver
 	wgs         map[*value]*wgState
 	onces       map[*value]*onceState
 	cells       map[*value]*cellInfo
@@ -99,7 +100,7 @@ type schedState struct {
 
 func (in *Interp) initSched() {
 	in.sched = &schedState{
-		mutexes: map[*value]*mutexState{}, wgs: map[*value]*wgState{}, onces: map[*value]*onceState{},
+		mutexes: map[*value]*mutexState{}, syncMaps: map[*value]*mapV{}, wgs: map[*value]*wgState{}, onces: map[*value]*onceState{},
 		cells: map[*value]*cellInfo{},
 	}
 	g0 := &goroutine{id: 0, resume: make(chan struct{}, 1), vc: vclock{1}, what: "main"}
